@@ -43,6 +43,11 @@ Example cfg_rate_zero : erate (mk_config 1 0 0 0 0) = Some 0 /\ lrate (mk_config
 Proof. vm_compute. split; reflexivity. Qed.
 Example cfg_no_injector inj eb lb a b : inj = 0 -> erate (mk_config inj eb lb a b) = Some 0.
 Proof. intros ->. reflexivity. Qed.
+(* error rate 1 configured, then the error function replaced (route 8): still rate 1 *)
+Example cfg_rate_one_fn_replaced :
+  erate (mk_config (1 + 2 * 8) 4607182418800017408 0 0 0) = Some f64_one /\
+  custom (mk_config (1 + 2 * 8) 4607182418800017408 0 0 0) = true.
+Proof. vm_compute. split; reflexivity. Qed.
 
 (* every clamped rate is NaN or lies in [0,1] *)
 Lemma clamp01_range a v : clamp01 a = Some v -> 0 <= v <= f64_one.
@@ -52,6 +57,93 @@ Proof.
   destruct (x <? 0) eqn:E1; [lia|]. apply Z.ltb_ge in E1.
   destruct (f64_one <? x) eqn:E2; [lia|]. apply Z.ltb_ge in E2. lia.
 Qed.
+
+(* ---- the builder ---- *)
+Lemma clamp01_idem a : clamp01 (clamp01 a) = clamp01 a.
+Proof.
+  assert (H1 : 0 < f64_one) by (vm_compute; reflexivity).
+  destruct a as [x|]; cbn; [|reflexivity]. f_equal.
+  destruct (x <? 0) eqn:E1.
+  - cbn. destruct (f64_one <? 0) eqn:E; [apply Z.ltb_lt in E; lia|reflexivity].
+  - apply Z.ltb_ge in E1. destruct (f64_one <? x) eqn:E2.
+    + destruct (f64_one <? 0) eqn:E3; [apply Z.ltb_lt in E3; lia|]. rewrite Z.ltb_irrefl. reflexivity.
+    + rewrite E2. destruct (x <? 0) eqn:E3; [apply Z.ltb_lt in E3; lia|reflexivity].
+Qed.
+
+Lemma clamp01_zero : clamp01 (Some 0) = Some 0.
+Proof.
+  cbn. destruct (f64_one <? 0) eqn:E; [|reflexivity].
+  apply Z.ltb_lt in E. assert (0 < f64_one) by (vm_compute; reflexivity). lia.
+Qed.
+
+(* the last error_rate() of a call sequence *)
+Fixpoint last_rate (ops : list bop) (acc : option (option Z)) : option (option Z) :=
+  match ops with
+  | [] => acc
+  | BRate r :: t => last_rate t (Some r)
+  | BFn :: t => last_rate t acc
+  end.
+Definition rate_of (acc : option (option Z)) : option Z :=
+  match acc with Some r => clamp01 r | None => Some 0 end.
+Definition is_fn (o : bop) : bool := match o with BFn => true | BRate _ => false end.
+
+Lemma rate_of_idem acc : clamp01 (rate_of acc) = rate_of acc.
+Proof. destruct acc as [r|]; cbn [rate_of]; [apply clamp01_idem|apply clamp01_zero]. Qed.
+
+Lemma fold_rate ops b acc :
+  brate b = rate_of acc ->
+  brate (fold_left bstep ops b) = rate_of (last_rate ops acc) /\
+  bcustom (fold_left bstep ops b) = bcustom b || existsb is_fn ops.
+Proof.
+  revert b acc. induction ops as [|o ops IH]; intros b acc Hb; cbn [fold_left last_rate existsb].
+  - split; [exact Hb|rewrite orb_false_r; reflexivity].
+  - destruct o as [r|].
+    + destruct (IH (bstep b (BRate r)) (Some r)) as [A B]; [destruct b; reflexivity|].
+      split; [exact A|]. rewrite B. destruct b; reflexivity.
+    + destruct (IH (bstep b BFn) acc) as [A B].
+      { destruct b as [|r0|r0]; cbn [bstep brate] in *.
+        - rewrite <- Hb. apply clamp01_zero.
+        - rewrite Hb. apply rate_of_idem.
+        - rewrite Hb. apply rate_of_idem. }
+      split; [exact A|]. rewrite B. destruct b; cbn; rewrite ?orb_true_r; reflexivity.
+Qed.
+
+(* whatever the order of the calls: the LAST error_rate() wins (clamped to [0,1]) and error_fn() never
+   changes the rate, however often the error function is replaced; the injector is CustomErrorFn as
+   soon as error_fn() was called once *)
+Lemma builder_last_rate_wins ops :
+  brate (build ops) = rate_of (last_rate ops None) /\ bcustom (build ops) = existsb is_fn ops.
+Proof. unfold build. exact (fold_rate ops BNone None eq_refl). Qed.
+
+Lemma route_ops_last route r :
+  0 <= route < 16 -> last_rate (route_ops route r) None = Some r /\ existsb is_fn (route_ops route r) = true.
+Proof.
+  intros H.
+  assert (E : route = 0 \/ route = 1 \/ route = 2 \/ route = 3 \/ route = 4 \/ route = 5 \/ route = 6 \/
+              route = 7 \/ route = 8 \/ route = 9 \/ route = 10 \/ route = 11 \/ route = 12 \/ route = 13 \/
+              route = 14 \/ route = 15) by lia.
+  repeat (destruct E as [->|E]; [split; reflexivity|]). subst. split; reflexivity.
+Qed.
+
+(* every builder route of the harness (error_fn before or after error_rate, through
+   ChaosConfigBuilderWithRate, the error function replaced once or twice, rates overwritten) yields
+   CustomErrorFn with exactly the script's error rate, clamped *)
+Lemma routes_configure_rate flags eb lb minv maxv :
+  flags mod 2 = 1 ->
+  custom (mk_config flags eb lb minv maxv) = true /\
+  erate (mk_config flags eb lb minv maxv) = clamp01 (f64_val eb).
+Proof.
+  intros H. unfold mk_config. rewrite H. cbn [Z.eqb custom erate].
+  assert (R : 0 <= (flags / 2) mod 16 < 16) by (apply Z.mod_pos_bound; lia).
+  destruct (builder_last_rate_wins (route_ops ((flags / 2) mod 16) (f64_val eb))) as [A B].
+  destruct (route_ops_last _ (f64_val eb) R) as [C D].
+  rewrite A, B, C, D. split; reflexivity.
+Qed.
+
+Lemma no_injector_config flags eb lb minv maxv :
+  flags mod 2 = 0 ->
+  custom (mk_config flags eb lb minv maxv) = false /\ erate (mk_config flags eb lb minv maxv) = Some 0.
+Proof. intros H. unfold mk_config. rewrite H. split; reflexivity. Qed.
 
 (* ---- the decision block ---- *)
 Lemma err_excludes_latency c st :
@@ -453,9 +545,10 @@ Lemma config_truncation flags eb lb minv maxv :
 Proof.
   assert (H1 : 0 < f64_one) by (vm_compute; reflexivity).
   split; [reflexivity|]. split; [reflexivity|]. split; intros v Hv.
-  - cbn [erate mk_config] in Hv. destruct (flags mod 2 =? 0).
-    + injection Hv as <-. lia.
+  - cbn [erate mk_config] in Hv. rewrite (proj1 (builder_last_rate_wins _)) in Hv.
+    destruct (last_rate _ None) as [r|]; cbn [rate_of] in Hv.
     + eapply clamp01_range; eassumption.
+    + injection Hv as <-. lia.
   - cbn [lrate mk_config] in Hv. eapply clamp01_range; eassumption.
 Qed.
 
@@ -767,7 +860,7 @@ Lemma script_runs_polls s :
   let t_end := fold_left (fun a q => a + Z.max 0 (q_gap q)) qs 0 + Z.max 0 (zn s 6) in
   let cs := calls 0 0 qs in
   let os := fst (run_polls c t_end (polls cs [] 0) (skipn (8 + 3 * n) s)) in
-  [3] ++ flat_map (enc_call os) cs ++
+  [7] ++ flat_map (enc_call os) cs ++
   [Z.of_nat (length (flat_map (fun po => d_bits (o_dec (snd po))) os))] ++
   flat_map (fun po => d_bits (o_dec (snd po))) os.
 Proof.
